@@ -677,6 +677,16 @@ func (c *EvalCtx) call(e ECall) EV {
 		n := c.inState(c.old)
 		n.withFrameState(func() { out = n.eval(e.Args[0]) })
 		return out
+	case "at":
+		// at(snapshotName, expr): expr evaluated in the state saved by a 'snapshot' clause
+		st, ok := fr.R.snaps[identName(e.Args[0])]
+		if !ok {
+			c.fail("no snapshot %q (is there a call site?)", identName(e.Args[0]))
+		}
+		var out EV
+		n := c.inState(st)
+		n.withFrameState(func() { out = n.eval(e.Args[1]) })
+		return out
 	case "len":
 		x := c.eval(e.Args[0])
 		xt := c.term(x)
